@@ -763,6 +763,19 @@ pub fn run_seq(base: Instant, l: &Lim, vs: bool, seq: &[Op], dump: bool) -> Resu
             // buffered bound (probe): bytes accounted as received never exceed what was advertised
             let pr = slot_.conn.verif_probe().streams;
             let entitled = m.adv_max_data.max(m.entitled_hi);
+            // nothing unread in the model (everything received was read, or discarded by stop / reset,
+            // for which credit has been returned): nothing may be held in the reassembly buffers
+            if m.closed.is_none() {
+                let unread: u64 = m
+                    .streams
+                    .values()
+                    .filter(|s| !s.stopped && !s.done && s.reset.is_none())
+                    .map(|s| (0..s.high as usize).filter(|i| s.got[*i] && !s.returned.get(*i).copied().unwrap_or(false)).count() as u64)
+                    .sum();
+                if unread == 0 && pr.recv_buffered > 0 {
+                    viol.push(("discarded-data-still-buffered".into(), format!("step {step} {op:?}: every received byte was read by the application or discarded (stop / reset; credit for it has been returned to the peer), yet {} bytes are still held in reassembly buffers", pr.recv_buffered)));
+                }
+            }
             for d in 0..2 {
                 if m.closed.is_none() && pr.next_remote[d] > pr.max_remote[d].max(m.entitled_streams(d)) {
                     viol.push(("remote-stream-opened-beyond-limit".into(), format!("step {step} {op:?}: the endpoint counts {} peer-initiated {} streams as opened (its application can accept them) but it has granted only {}", pr.next_remote[d], if d == 0 { "bidirectional" } else { "unidirectional" }, pr.max_remote[d])));
@@ -870,7 +883,7 @@ pub fn main(args: &Args) -> ! {
     let thorough = args.tier == Tier::Thorough;
     let dl = deadline(if thorough { 1500 } else { 50 });
     let depth = if thorough { 4 } else { 3 };
-    rep.rule = format!("E3: every sequence of length {depth} over an alphabet of puppet frames (STREAM at offsets one below / at / one above the stream limit, FINs, RESET_STREAM with final sizes below / at / above, streams at index limit-1 / limit, MAX_STREAM_DATA / STOP_SENDING / STREAM_DATA_BLOCKED naming peer-initiated bidirectional streams at index 0 / 1 / 2^30 (within and beyond the granted count; quick: once per sequence among a core of the alphabet), DATAGRAM of buffer-1 / buffer / buffer+1 bytes, CRYPTO ending at / beyond the crypto buffer) interleaved with local operations (read(n), stop, set_receive_window smaller/larger, set_max_concurrent_streams, datagram recv), for four limit configurations, against server victims (client victims for depth-2 prefixes). A reference model tracks what the victim advertised (transport parameters + MAX_* frames decoded from its output) and what its application consumed: a frame inside every advertised limit must be accepted, the first frame outside must close with exactly the error code of a violated limit, reads must return exactly the model's bytes, every MAX_DATA / MAX_STREAM_DATA must be <= consumed + window, data accounted as received never exceeds the advertised limit, peer-initiated streams counted as opened never exceed the granted count. Sequences are pruned after the connection closes. Non-trivial = sequence in which at least one frame reached a limit boundary or closed the connection; distinct = distinct trace hashes.");
+    rep.rule = format!("E3: every sequence of length {depth} over an alphabet of puppet frames (STREAM at offsets one below / at / one above the stream limit, FINs, RESET_STREAM with final sizes below / at / above, streams at index limit-1 / limit, MAX_STREAM_DATA / STOP_SENDING / STREAM_DATA_BLOCKED naming peer-initiated bidirectional streams at index 0 / 1 / 2^30 (within and beyond the granted count; quick: once per sequence among a core of the alphabet), DATAGRAM of buffer-1 / buffer / buffer+1 bytes, CRYPTO ending at / beyond the crypto buffer) interleaved with local operations (read(n), stop, set_receive_window smaller/larger, set_max_concurrent_streams, datagram recv), for four limit configurations, against server victims (client victims for depth-2 prefixes). A reference model tracks what the victim advertised (transport parameters + MAX_* frames decoded from its output) and what its application consumed: a frame inside every advertised limit must be accepted, the first frame outside must close with exactly the error code of a violated limit, reads must return exactly the model's bytes, every MAX_DATA / MAX_STREAM_DATA must be <= consumed + window, data accounted as received never exceeds the advertised limit, peer-initiated streams counted as opened never exceed the granted count, and when the model holds nothing unread (all read, stopped or reset) the reassembly buffers hold nothing. Sequences are pruned after the connection closes. Non-trivial = sequence in which at least one frame reached a limit boundary or closed the connection; distinct = distinct trace hashes.");
     let mut tasks: Vec<(usize, bool, Vec<usize>)> = vec![];
     let ls = lims();
     for (li, l) in ls.iter().enumerate() {
